@@ -7,6 +7,8 @@ import GfsSpec.WF
 import GfsProofs.BlocksLemmas
 import GfsProofs.ListViews
 import GfsProps.C01
+import GfsGen.Facts
+import GfsModel.ExpectedSrc
 
 namespace Gfs.Props.C02
 open Gfs Gfs.Spec Gfs.Proofs
@@ -49,5 +51,10 @@ theorem C02_bijection (txt : Bytes) (fs : FrameSet) (h : FrameSet.parse txt = .o
     (∀ v, fs.hasFrame v = true → 0 ≤ fs.index v ∧ fs.index v < fs.len ∧ fs.frame (fs.index v) = .ok v) := by
   obtain ⟨hnd, hlen, hval, hidx, hhas, _⟩ := C02_views txt fs h
   exact views_bijection fs.frames hnd fs.len hlen fs.frame hval fs.index hidx fs.hasFrame hhas
+
+/-- the declarations of /repo this property's model and specification were written from are,
+    on this run, the ones the model was last aligned with (digest of their comment- and
+    layout-insensitive fingerprints, re-extracted by tools/gofacts) -/
+theorem C02_source : Gfs.Gen.sourceDigestC02 = Gfs.expectedSourceDigestC02 := by decide
 
 end Gfs.Props.C02
